@@ -341,10 +341,11 @@ def c03_b(ctx: Ctx):
     mv = ctx.fn("signac.job:Job.move")
     cfg = ctx.cfg(mv)
     rp = [e for e in ctx.effects.direct(mv) if e.kind == "rename"]
-    if not rp:
+    rpc = [e.node for e in rp] or [c for c in body_nodes(mv) if common.rename_call(ctx, mv, c) is not None]
+    if not rpc:
         out.append(ctx.inc(R, mv, mv.node, "move() has no rename"))
     else:
-        st = ctx.stmt_of(mv, rp[0].node)
+        st = ctx.stmt_of(mv, rpc[0])
         adopt = set()
         adopted_names = set()
         env = ctx.env(mv)
